@@ -69,7 +69,7 @@ def configs(tier, seed):
     ]
     if tier == "thorough":
         out += [_cfg((4, 4, 4), [(2, 2, 2), (2, 2, 2), (1, 1, 1)], 1, "uint16", "uint16", dlay="sharded", cost=5),
-                _cfg((4, 2, 2), [(2, 2, 2)], 1, "uint64", "uint64", senc="compressed_segmentation", denc="compressed_segmentation", cost=40, wall=3000),
+                _cfg((3, 2, 1), [(2, 2, 1)], 1, "uint64", "uint64", senc="compressed_segmentation", denc="compressed_segmentation", cost=40, wall=900),
                 _cfg((3, 3, 3), [(2, 2, 2), (4, 4, 4)], 3, "uint8", "uint16", slay="gzip", dlay="gzip")]
     return out
 
